@@ -25,6 +25,22 @@ type ArrV struct {
 // ArrS: constant-length array of composite elements.
 type ArrS struct{ Elems []Value }
 
+// ArrU: array of composite elements with symbolic length and unknown content (reads yield fresh values).
+type ArrU struct {
+	ET  types.Type
+	Len *Term
+	ID  int
+}
+
+func (cx *Ctx) NewArrU(et types.Type, ln *Term) ArrU {
+	cx.mu.Lock()
+	cx.objN++
+	id := cx.objN
+	cx.mu.Unlock()
+	cx.Note("slices of composite elements with symbolic length are modelled with unknown content (every read yields an unconstrained element)")
+	return ArrU{ET: et, Len: ln, ID: id}
+}
+
 type PathEl struct {
 	Field int   // >=0: struct field; -1: index
 	Index *Term // BV64 when Field == -1
@@ -421,6 +437,13 @@ func IteV(c *Term, a, b Value) Value {
 		return ArrS{e}
 	case ErrV:
 		return ErrV{Ite(c, x.Code, b.(ErrV).Code)}
+	case ArrU:
+		if y, ok := b.(ArrU); ok {
+			if y.ID == x.ID {
+				return x
+			}
+			return ArrU{ET: x.ET, Len: Ite(c, x.Len, y.Len), ID: -x.ID*100000 - y.ID}
+		}
 	case StrV:
 		y := b.(StrV)
 		return StrV{C: IteC(c, x.C, y.C), Off: Ite(c, x.Off, y.Off), Len: Ite(c, x.Len, y.Len)}
